@@ -13,6 +13,7 @@ import (
 	gatewayv1 "sigs.k8s.io/gateway-api/apis/v1"
 	gatewayv1alpha2 "sigs.k8s.io/gateway-api/apis/v1alpha2"
 	gatewayv1alpha3 "sigs.k8s.io/gateway-api/apis/v1alpha3"
+	gatewayv1beta1 "sigs.k8s.io/gateway-api/apis/v1beta1"
 
 	ngfAPI "github.com/nginx/nginx-gateway-fabric/apis/v1alpha1"
 	ngfAPIv2 "github.com/nginx/nginx-gateway-fabric/apis/v1alpha2"
@@ -378,6 +379,63 @@ func specialDirected(add func(string, []client.Object, ...Op), base func(...clie
 	add("namespace-invalid-listener-unlabelled-relabelled", append(ns(), gc, gwInvSel, routeA, p.Service("team-a", "svc0", 80)),
 		upd(nsA, "ns-relabel", func(o client.Object) { delete(o.(*apiv1.Namespace).Labels, "team") }), cut,
 		upd(nsA, "ns-relabel", func(o client.Object) {}), cut)
+	// --- Terminating objects: deletion requested while a finalizer holds the object (deletionTimestamp set, generation bumped):
+	// still in the cluster, in the caches and in the start-up listing; then the finalizer goes and the object with it
+	term := func(o client.Object) Op {
+		return upd(o, "mark-terminating", func(x client.Object) { markTerminating(x) })
+	}
+	grantT := p.ReferenceGrant("default", "rg", []p.GrantFrom{{Group: "gateway.networking.k8s.io", Kind: "HTTPRoute", Namespace: "team-a"}},
+		[]p.GrantTo{{Kind: "Service"}})
+	routeXT := p.HTTPRoute("team-a", "hr-x", 5, []gatewayv1.ParentReference{p.ParentRef("default", "gw0", "")}, nil,
+		p.HTTPRule([]gatewayv1.HTTPRouteMatch{p.PathMatch("PathPrefix", "/x")}, p.Backend{Ref: "default/svc0", Port: 80, Weight: -1}))
+	cspT := &ngfAPI.ClientSettingsPolicy{ObjectMeta: p.Meta("default", "csp", 6)}
+	cspT.Spec.TargetRef = gatewayv1alpha2.LocalPolicyTargetReference{Group: "gateway.networking.k8s.io", Kind: "Gateway", Name: "gw0"}
+	cspT.Spec.Body = &ngfAPI.ClientBody{MaxSize: ptr(ngfAPI.Size("10m"))}
+	for _, tc := range []struct {
+		name string
+		init []client.Object
+		obj  client.Object
+	}{
+		{"gatewayclass", base(), gc}, {"gateway", base(), gw}, {"httproute", base(), route}, {"service", base(), svc0},
+		{"endpointslice", base(), es0}, {"secret", base(), sec}, {"referencegrant", base(routeXT, grantT), grantT},
+		{"clientsettingspolicy", base(cspT), cspT}, {"backendtlspolicy", base(btp, cm), btp}, {"configmap", base(btp, cm), cm},
+		{"nginxproxy", append(ns(), gcNP, npLater, gw, route, svc0, es0, sec), npLater},
+	} {
+		add("terminating-"+tc.name, tc.init, term(tc.obj), cut, del(tc.obj), cut)
+	}
+	add("terminating-httproute-then-updated", base(), term(route), cut,
+		upd(route, "hr-hostname", func(o client.Object) {
+			markTerminating(o)
+			o.(*gatewayv1.HTTPRoute).Spec.Hostnames = []gatewayv1.Hostname{"foo.example.com"}
+		}), cut, Op{Op: "restart"}, del(route), cut)
+	add("terminating-mixed-batch", base(), term(es0), term(route), upd(sec, "annotation", func(o client.Object) {
+		o.SetAnnotations(map[string]string{"verif/touched": "1"})
+	}), cut)
+	// --- resourceVersions across digit-length boundaries: an object is updated often enough to pass 9 → 10 / 99 → 100
+	hostOf := func(i int) func(client.Object) {
+		return func(o client.Object) {
+			o.(*gatewayv1.HTTPRoute).Spec.Hostnames = []gatewayv1.Hostname{gatewayv1.Hostname(fmt.Sprintf("h%d.example.com", i))}
+		}
+	}
+	var many []Op
+	for i := 0; i < 6; i++ {
+		many = append(many, upd(route, "hr-hostname", hostOf(i)), cut)
+	}
+	add("resourceversion-boundary-route", base(), many...)
+	var manyG []Op
+	for i := 0; i < 6; i++ {
+		to := []string{"svc0", "svc9"}[i%2]
+		manyG = append(manyG, upd(grantT, "grant-to-name", func(o client.Object) {
+			o.(*gatewayv1beta1.ReferenceGrant).Spec.To[0].Name = ptr(gatewayv1.ObjectName(to))
+		}), cut)
+	}
+	add("resourceversion-boundary-grant", base(routeXT, grantT), manyG...)
+	var manyS []Op
+	for i := 0; i < 6; i++ {
+		port := int32(80 + i%2)
+		manyS = append(manyS, upd(svc0, "svc-port", func(o client.Object) { o.(*apiv1.Service).Spec.Ports[0].Port = port }), cut)
+	}
+	add("resourceversion-boundary-service", base(), manyS...)
 	// another NginxGateway object: the controller's namespaced-name filter ignores it
 	otherCfg := &ngfAPI.NginxGateway{ObjectMeta: p.Meta(controlConfig.Namespace, "other-config", 14)}
 	otherCfg.Spec.Logging = &ngfAPI.Logging{Level: ptr(ngfAPI.ControllerLogLevelDebug)}
